@@ -1207,6 +1207,10 @@ def pipeline_table(out, thorough):
     ctx = S.fmt_ctx()
     muts = ["none", "sig+nop", "sig+push", "sig+reserved", "redeem-pd1", "redeem-pd2", "native-sig-00", "native-sig-61", "wit-wrong", "wit-none", "wit-extra",
             "wit-unexpected", "unclean"]
+    if not thorough:
+        # quick: the ingredients that distinguish the dispatch rules; the full product runs in the thorough tier
+        inners = inners[:2] + inners[3:6] + inners[7:9]
+        flag_sets = flag_sets[:6] + flag_sets[7:8]
     for kind in ("bare", "p2sh", "p2wsh", "p2sh-p2wsh"):
         for inner in inners:
             for stack in (stacks if thorough else stacks[:3]):
@@ -1260,7 +1264,8 @@ def pipeline_table(out, thorough):
                 if fill == 0:
                     prog = prog[:-1] + b"\x80" if ln % 2 else prog
                 spk0 = bytes([ver]) + push(prog)
-                for fl in (P | W, STD, STD & ~F["DISCOURAGE_UPGRADABLE_WITNESS_PROGRAM"], P, P | W | F["CLEANSTACK"]):
+                for fl in ((P | W, STD, STD & ~F["DISCOURAGE_UPGRADABLE_WITNESS_PROGRAM"], P, P | W | F["CLEANSTACK"]) if thorough or fill else
+                           (P | W, STD & ~F["DISCOURAGE_UPGRADABLE_WITNESS_PROGRAM"], P | W | F["CLEANSTACK"])):
                     for wit in ([], [b"\x01"], [b"", b""]):
                         for ssig in (b"", b"\x51"):
                             out.append(Case("verify", fl, (ssig, spk0, wit), ctx, tag="ptable-program"))
@@ -1437,6 +1442,7 @@ def ms_opcount_cases(out, vm_emit, rng=None, n_random=0):
         else:
             c = wrap(None, wrapper, script, stack, fl | P | W, ctx)
         c.tag = "ms-opcount-" + wrapper
+        c.hints = [(sg, sec(ki, "c"), script, sv) for sg in dict.fromkeys(x for x in stack if x) for ki in sorted({i_ for idx_ in keyidx for i_ in idx_})]
         out.append(c)
         # ---- model stream (its own transaction, keys and signatures)
         wit = sv == "1"
@@ -1455,6 +1461,302 @@ def ms_opcount_cases(out, vm_emit, rng=None, n_random=0):
         else:
             redeem = sc(0, push(sha256(script2)))
             vm_emit(g.vf(fl | P | W, push(redeem), sc("HASH160", push(h160(redeem)), "EQUAL"), stack2 + [script2], g.CTX0, tbl))
+
+
+# ---------------------------------------------------------------------------------------------- signature arrangements (both streams)
+def fixed_ctx(script_sig=b"", witness=(), amount=1000, version=1, lock_time=0, sequence=0xFFFFFFFF) -> str:
+    """a context whose spending transaction has a FIXED outpoint (not the hash of a crediting transaction): signature hashes then do not depend
+    on the scriptPubKey, so that a signature can also be embedded in the script it signs (FindAndDelete removes it from its own scriptCode)"""
+    tx = Tx(version, [Tx.TxIn(b"\x22" * 32, 0, script_sig, sequence=sequence)], [Tx.TxOut(amount, b"")], lock_time=lock_time)
+    tx.txs_in[0].witness = list(witness)
+    return S.fmt_ctx(version, lock_time, sequence, amount, tx.as_hex(), 0)
+
+
+class SpecStream:
+    """spec_* cases: own keys, signatures over the fixed-outpoint transaction"""
+
+    def __init__(self, out, tag):
+        self.out, self.tag = out, tag
+        self.info = Case("eval", 0, (b"", []), fixed_ctx()).txinfo()
+        self._cache: dict = {}
+
+    def sec(self, i, form="c"):
+        return sec(i, form)
+
+    def sign(self, i, code, wit, ht=1):
+        k = (i, code, wit, ht)
+        if k not in self._cache:
+            self._cache[k] = sign(self.info, i, code, ht, "1" if wit else "0", high_s=False)
+        return self._cache[k]
+
+    @staticmethod
+    def _hints(codes, sigs, pubs, wit):
+        sv = "1" if wit else "0"
+        if codes and isinstance(codes[0], tuple):
+            return [(sg, pb, code, sv) for sg, pb, code in codes if sg]
+        return [(sg, pb, code, sv) for code in dict.fromkeys(codes) for sg in dict.fromkeys(x for x in sigs if x) for pb in dict.fromkeys(pubs)]
+
+    def ev(self, fl, script, stack, wit, codes=(), sigs=(), pubs=()):
+        c = Case("eval", fl, (script, list(stack)), fixed_ctx(), "1" if wit else "0", tag=self.tag)
+        c.hints = self._hints(codes, sigs, pubs, wit)
+        self.out.append(c)
+
+    def vf(self, fl, ssig, spk, witness, wit, codes=(), sigs=(), pubs=()):
+        c = Case("verify", fl, (ssig, spk, list(witness)), fixed_ctx(ssig, witness), tag=self.tag)
+        c.hints = self._hints(codes, sigs, pubs, wit)
+        self.out.append(c)
+
+
+class VmStream:
+    """vm_* lines: the model side's transaction, keys, signatures and oracle table"""
+
+    def __init__(self, emit):
+        from props import c03m_gen as g, c03m_gensig as gs
+        self.g, self.gs, self.emit = g, gs, emit
+
+    def sec(self, i, form="c"):
+        return self.gs.sec(i, form)
+
+    def sign(self, i, code, wit, ht=1):
+        return self.gs.sign(i, code, bool(wit), ht)
+
+    def _table(self, codes, sigs, pubs, wit):
+        if codes and isinstance(codes[0], tuple):
+            # explicit candidates (sig, pub, scriptCode): keep those that really verify
+            import props.c03m as m
+            seen, out = set(), []
+            for sg, pb, code in codes:
+                k = (sg, pb, code)
+                if sg and k not in seen:
+                    seen.add(k)
+                    if self.gs.really_verifies(sg, pb, code, bool(wit), self.g.CTX0):
+                        out.append((sg, pb, m.code_key(code, bool(wit))))
+            return out
+        sigs = sorted({x for x in sigs if x})
+        return self.gs.table(sigs, sorted(set(pubs)), list(dict.fromkeys(codes)), bool(wit), self.g.CTX0)
+
+    def ev(self, fl, script, stack, wit, codes=(), sigs=(), pubs=()):
+        self.emit(self.g.ev(fl, script, list(stack), wit=int(bool(wit)), table=self._table(codes, sigs, pubs, wit)))
+
+    def vf(self, fl, ssig, spk, witness, wit, codes=(), sigs=(), pubs=()):
+        self.emit(self.g.vf(fl, ssig, spk, list(witness), self.g.CTX0, self._table(codes, sigs, pubs, wit)))
+
+
+def _wrap_emit(st, wrapper, fl, script, stack, wit, codes, sigs, pubs):
+    W, P = F["WITNESS"], F["P2SH"]
+    if wrapper in ("eval0", "eval1"):
+        st.ev(fl, script, stack, wit, codes, sigs, pubs)
+    elif wrapper == "bare":
+        st.vf(fl, pushes(stack), script, [], wit, codes, sigs, pubs)
+    elif wrapper == "p2sh":
+        st.vf(fl | P, pushes(stack) + push_min(script), sc("HASH160", push(h160(script)), "EQUAL"), [], wit, codes, sigs, pubs)
+    elif wrapper == "p2wsh":
+        st.vf(fl | P | W, b"", sc(0, push(sha256(script))), list(stack) + [script], wit, codes, sigs, pubs)
+    else:  # p2sh-p2wsh
+        redeem = sc(0, push(sha256(script)))
+        st.vf(fl | P | W, push(redeem), sc("HASH160", push(h160(redeem)), "EQUAL"), list(stack) + [script], wit, codes, sigs, pubs)
+
+
+# (a) several CHECKSIG / CHECKSIGVERIFY / CHECKMULTISIG per script, shared hash types, a signature embedded in the script, CODESEPARATORs
+def multi_checksig(st, plan):
+    """plan: ops = [(kind, key index, hash type)], kind in cs | ms (1-of-1 multisig); every op but the last is the VERIFY form.
+    embed = index of the op whose signature is ALSO pushed inside the script (then dropped), or None; embed_at = start | before;
+    codesep = set of op indices preceded by OP_CODESEPARATOR; cross = (a, b): op a's signature is made over op b's scriptCode (invalid)."""
+    ops, e, wit = plan["ops"], plan.get("embed"), plan["wit"]
+    items = []                      # ("raw", bytes) | ("emb",) | ("cs",)
+    opitem = []
+    if e is not None and plan.get("embed_at") == "start":
+        items += [("emb",), ("raw", bytes([OP["DROP"]]))]
+    for j, (kind, ki, ht) in enumerate(ops):
+        if j in plan.get("codesep", ()):
+            items.append(("cs",))
+        if e == j and plan.get("embed_at") != "start":
+            items += [("emb",), ("raw", bytes([OP["DROP"]]))]
+        last = j == len(ops) - 1
+        if kind == "cs":
+            items.append(("raw", push(st.sec(ki)) + bytes([OP["CHECKSIG" if last else "CHECKSIGVERIFY"]])))
+        else:
+            items.append(("raw", sc("1", push(st.sec(ki)), "1", "CHECKMULTISIG" if last else "CHECKMULTISIGVERIFY")))
+        opitem.append(len(items) - 1)
+
+    def render(its, emb):
+        return b"".join(b"\xab" if it[0] == "cs" else (push(emb) if it[0] == "emb" else it[1]) for it in its)
+
+    def code_for(j, emb, delete_own):
+        start = 0
+        for idx in range(opitem[j]):
+            if items[idx][0] == "cs":
+                start = idx + 1
+        its = items[start:]
+        if delete_own:
+            its = [it for it in its if it[0] != "emb"]
+        return render(its, emb)
+
+    sigs: dict = {}
+    order = ([e] if e is not None else []) + [j for j in range(len(ops)) if j != e]
+    emb = b""
+    codes = []
+    for j in order:
+        kind, ki, ht = ops[j]
+        src = j
+        if plan.get("cross") and plan["cross"][0] == j:
+            src = plan["cross"][1]
+        code = code_for(src, emb, delete_own=(src == e and not wit))
+        codes.append(code)
+        sigs[j] = st.sign(ki, code, wit, ht)
+        if j == e:
+            emb = sigs[j]
+    script = render(items, emb)
+    codes += [code_for(j, emb, delete_own=(j == e and not wit)) for j in range(len(ops))]
+    stack = []
+    for j in reversed(range(len(ops))):
+        stack += ([b""] if ops[j][0] == "ms" else []) + [sigs[j]]
+    pubs = [st.sec(ki) for _, ki, _ in ops]
+    # what the interpreter can ask: each op's key and actual scriptCode, with any of the signatures of the case
+    cands = [(sg, pubs[j], code_for(j, emb, delete_own=(j == e and not wit))) for j in range(len(ops)) for sg in sigs.values()]
+    _wrap_emit(st, plan["wrapper"], plan["flags"], script, stack, wit, cands, list(sigs.values()), pubs)
+
+
+def multi_checksig_plans(rng=None, n=0):
+    if rng is None:
+        i = 0
+        for kinds in (("cs", "cs"), ("cs", "ms"), ("ms", "cs"), ("ms", "ms"), ("cs", "cs", "cs"), ("cs", "ms", "cs")):
+            for samekey in (True, False):
+                for e, at in ((None, None), (0, "start"), (1, "start"), (1, "before"), (len(kinds) - 1, "start")):
+                    for codesep in ((), (1,), (len(kinds) - 1,)):
+                        for cross in (None, (len(kinds) - 1, 0)):
+                            i += 1
+                            wrapper = ("eval0", "bare", "p2sh", "eval0", "p2wsh", "eval1")[i % 6]
+                            wit = wrapper in ("p2wsh", "eval1")
+                            if wit and e is not None:
+                                wrapper, wit = "p2sh", False
+                            ops = [(k, 0 if samekey else j % 3, 1) for j, k in enumerate(kinds)]
+                            yield {"ops": ops, "embed": e, "embed_at": at, "codesep": codesep, "cross": cross, "wrapper": wrapper, "wit": wit,
+                                   "flags": (0, F["NULLFAIL"], F["STRICTENC"] | F["DERSIG"] | F["LOW_S"] | F["NULLFAIL"] | F["NULLDUMMY"])[i % 3]}
+    else:
+        for _ in range(n):
+            k = rng.choice([2, 2, 3, 4])
+            wrapper = rng.choice(["eval0", "eval0", "bare", "p2sh", "p2wsh", "eval1", "p2sh-p2wsh"])
+            wit = wrapper in ("p2wsh", "eval1", "p2sh-p2wsh")
+            hts = [rng.choice([1, 1, 1, 2, 3, 0x81, 0x83]) for _ in range(k)]
+            if rng.random() < 0.6:
+                hts = [hts[0]] * k
+            yield {"ops": [(rng.choice(["cs", "cs", "ms"]), rng.choice([0, 0, 1, 2]), hts[j]) for j in range(k)],
+                   "embed": None if wit or rng.random() < 0.3 else rng.randrange(k), "embed_at": rng.choice(["start", "before"]),
+                   "codesep": tuple(j for j in range(k) if rng.random() < 0.25), "cross": None if rng.random() < 0.7 else (rng.randrange(k), rng.randrange(k)),
+                   "wrapper": wrapper, "wit": wit,
+                   "flags": rng.choice([0, 0, F["NULLFAIL"], F["STRICTENC"] | F["DERSIG"], F["LOW_S"] | F["NULLFAIL"] | F["NULLDUMMY"]])}
+
+
+# (b) witness items of 520 / 521+ bytes: padded (lax DER) signatures, oversized keys and extra items, P2WPKH and P2WSH, native and P2SH-wrapped
+def big_witness_items(st, thorough, rng=None, n=0):
+    W, P = F["WITNESS"], F["P2SH"]
+    flag_sets = [P | W, P | W | F["NULLFAIL"], P | W | F["WITNESS_PUBKEYTYPE"] | F["MINIMALIF"] | F["NULLDUMMY"] | F["CLEANSTACK"], STD]
+
+    def padded(sig, total):
+        return sig if total <= len(sig) else sig[:-1] + b"\x00" * (total - len(sig)) + sig[-1:]
+
+    def one(kind, what, size, fl, ki):
+        pk = st.sec(ki)
+        if kind.endswith("wpkh"):
+            code = sc("DUP", "HASH160", push(h160(pk)), "EQUALVERIFY", "CHECKSIG")
+            sig = st.sign(ki, code, True)
+            if what == "sig":
+                wit_items, prog = [padded(sig, size), pk], h160(pk)
+            elif what == "key":
+                blob = pk + b"\x00" * (size - len(pk))
+                wit_items, prog = [sig, blob], h160(blob)
+            else:
+                wit_items, prog = [b"\x00" * size, sig, pk], h160(pk)
+            spk0 = sc(0, push(prog))
+            codes = [code]
+        else:
+            script = sc(push(pk), "CHECKSIG") if what != "extra" else sc("DROP", push(pk), "CHECKSIG")
+            sig = st.sign(ki, script, True)
+            if what == "sig":
+                wit_items = [padded(sig, size), script]
+            elif what == "key":
+                script = sc(push(pk + b"\x00" * 10), "CHECKSIG")
+                wit_items = [padded(st.sign(ki, script, True), size), script]
+            else:
+                wit_items = [sig, b"\x00" * size, script]
+            spk0 = sc(0, push(sha256(wit_items[-1])))
+            codes = [wit_items[-1]]
+        if kind.startswith("p2sh-"):
+            ssig, spk = push(spk0), sc("HASH160", push(h160(spk0)), "EQUAL")
+        else:
+            ssig, spk = b"", spk0
+        st.vf(fl, ssig, spk, wit_items, True, codes, [x for x in wit_items if 8 < len(x) < 700 and x[:1] == b"\x30"], [pk])
+
+    if rng is None:
+        i = 0
+        for kind in ("p2wpkh", "p2sh-p2wpkh", "p2wsh", "p2sh-p2wsh"):
+            for what in ("sig", "key", "extra"):
+                for size in (519, 520, 521, 522, 600):
+                    i += 1
+                    for fl in (flag_sets if thorough or size in (520, 521) else flag_sets[i % 4: i % 4 + 1]):
+                        one(kind, what, size, fl, i % 3)
+    else:
+        for _ in range(n):
+            one(rng.choice(["p2wpkh", "p2sh-p2wpkh", "p2wsh", "p2sh-p2wsh"]), rng.choice(["sig", "sig", "key", "extra"]),
+                rng.choice([73, 100, 519, 520, 521, 522, 1000, 5000]), rng.choice(flag_sets + [P | W | F["DERSIG"], P | W | F["LOW_S"]]), rng.randrange(3))
+
+
+# (c) CHECKMULTISIG failure patterns under NULLFAIL: every arrangement of {valid for key i, empty, garbage} over the m signature slots
+def multisig_patterns(st, thorough, rng=None, n=0):
+    grng = lib.random.Random("C03/ms-patterns")
+    garbage = der_sig(grng.getrandbits(255) + 1, grng.getrandbits(253) + 1) + b"\x01"
+    NF = F["NULLFAIL"]
+
+    def one(m, n_, slots, fl, tail, wrapper):
+        wit = wrapper in ("eval1", "p2wsh")
+        pubs = [st.sec(i) for i in range(n_)]
+        script = sc(push_int(m), *[push(p_) for p_ in pubs], push_int(n_), "CHECKMULTISIG") + tail
+        sigs = [b"" if s_ == "e" else garbage if s_ == "g" else st.sign(s_, script, wit) for s_ in slots]
+        _wrap_emit(st, wrapper, fl, script, [b""] + sigs, wit, [script], sigs, pubs)
+
+    def arrangements(m, n_):
+        opts = list(range(n_)) + ["e", "g"]
+        out = [[]]
+        for _ in range(m):
+            out = [a + [o] for a in out for o in opts]
+        return out
+
+    if rng is None:
+        i = 0
+        for m, n_ in ((1, 1), (1, 2), (2, 2), (2, 3), (3, 3)):
+            for slots in arrangements(m, n_):
+                i += 1
+                combos = [(NF, sc("NOT"), ("eval0", "eval1", "p2sh", "p2wsh", "bare")[i % 5])]
+                if thorough or i % 3 == 0:
+                    combos += [(0, sc("NOT"), "eval0"), (NF | F["NULLDUMMY"] | F["STRICTENC"], b"", "eval1"), (NF, b"", "eval0")]
+                for fl, tail, wrapper in combos:
+                    one(m, n_, slots, fl, tail, wrapper)
+    else:
+        for _ in range(n):
+            n_ = rng.choice([1, 2, 3, 4, 5])
+            m = rng.randint(1, n_)
+            slots = [rng.choice(list(range(n_)) + ["e", "g"]) for _ in range(m)]
+            if rng.random() < 0.5:
+                slots = sorted([x for x in slots if isinstance(x, int)]) + [x for x in slots if not isinstance(x, int)]
+                rng.shuffle(slots) if rng.random() < 0.3 else None
+            one(m, n_, slots, rng.choice([NF, NF, 0, NF | F["NULLDUMMY"], NF | F["STRICTENC"] | F["DERSIG"]]), rng.choice([sc("NOT"), sc("NOT"), b""]),
+                rng.choice(["eval0", "eval1", "bare", "p2sh", "p2wsh", "p2sh-p2wsh"]))
+
+
+def signature_arrangements(out, vm_emit, thorough, rng, n_random):
+    """the three families above, for the spec_ stream (Case objects) and for the vm_ stream (op lines); deterministic tables + seeded random"""
+    seed = rng.getrandbits(64)
+    for st in (SpecStream(out, "sigarr"), VmStream(vm_emit)):
+        r = lib.random.Random(seed)   # the same random plans for both streams
+        for plan in multi_checksig_plans():
+            multi_checksig(st, plan)
+        big_witness_items(st, thorough)
+        multisig_patterns(st, thorough)
+        for plan in multi_checksig_plans(r, n_random):
+            multi_checksig(st, plan)
+        big_witness_items(st, thorough, r, n_random // 2)
+        multisig_patterns(st, thorough, r, n_random)
 
 
 # ---------------------------------------------------------------------------------------------- anchored line coverage
@@ -1551,6 +1853,7 @@ class _VmCtx:
 
 def gen(ctx, emit):
     rng = ctx.rng
+    S.XCHECK_SAMPLE[0] = 1 if ctx.thorough else 3
     # model side first: pycoin's VM against its Lean model (exact, error codes included)
     M.gen(_VmCtx(ctx, 0.35 if ctx.thorough else 0.6), lambda op, kind="": emit(op, "vm:" + (kind or op.split(" ", 1)[0])))
     vec_cases, tx_cases = validate_spec(ctx)
@@ -1566,6 +1869,8 @@ def gen(ctx, emit):
     vm_emit = lambda op: emit(op, "vm:ms-opcount")
     ms_opcount_cases(cases, vm_emit)
     ms_opcount_cases(cases, vm_emit, rng, ctx.n(40, 1500))
+    if not os.environ.get("C03_NO_SIGARR"):
+        signature_arrangements(cases, lambda op: emit(op, "vm:sigarr"), ctx.thorough, rng, ctx.n(60, 2000))
     _emit_cases(cases, emit, ctx)
 
     def batch(n, f):
@@ -1592,12 +1897,12 @@ def gen(ctx, emit):
                 stack = stack + [sig_variant(rng, base.txinfo(), ki, prog, sv)[0]]
             cs.append(Case("eval", fl, (prog, stack), c, sv, tag="random-eval"))
 
-    batch(ctx.n(25000, 600000), random_evals)
+    batch(ctx.n(22000, 480000), random_evals)
     batch(ctx.n(6000, 100000), lambda k, cs: pipeline_scenarios(rng, k, cs))
     batch(ctx.n(1500, 40000), lambda k, cs: sig_scenarios(rng, k, cs))
     # anchored line coverage on a sample (every k-th case, all regression cases)
     allops = list(CASES)
-    step = max(1, len(allops) // ctx.n(4000, 12000))
+    step = max(1, len(allops) // ctx.n(3000, 12000))
     ctx.extra_cov["anchored_line_coverage"] = line_coverage(allops[::step])
     tot = STATS["same_code"] + STATS["diff_code"]
     ctx.extra_cov["error_code_agreement"] = {
